@@ -195,6 +195,28 @@ PROPS["C14"] = dict(
     assumptions=[],
 )
 
+PROPS["C15"] = dict(
+    level_text="Ages are whole elapsed periods of (now - timestamp) on <<sec, nsec>> pairs, -newer/-newerXY a strict comparison of the entry's X with "
+               "the reference's Y at full resolution - a small TLA+ module. TLC enumerates ages k*period - 1ns, k*period, +1ns, +1s, mid-period for days "
+               "and minutes x the three timestamp kinds x operands, and every XY pair (but cc) with the entry one ns / one s before, at, or after the "
+               "reference, checks the property's sentences (trichotomy, fraction discarded, own timestamp only, strictness) and prints the prescribed "
+               "selection; the harness realises each case with utimensat and an injected clock (ctime cases: the clock or the other file is placed "
+               "relative to the ctime read back) and runs the real find in-process; random cases record the raw timestamps and TLC judges all 6 age "
+               "tests and all 12 newer forms on them.",
+    level_note="Trusted: TLC; utimensat/lstat; the injected Dependencies::now(). Distractor values are put into the timestamps a test must not consult. "
+               "ctime-vs-ctime can only be ordered, not placed, so it is judged in recorded runs only. Ages < 0 and -daystart are outside the property.",
+    mc=[dict(module="mc/MC_Time.tla", cfg=dict(quick="mc/MC_Time_quick.cfg", thorough="mc/MC_Time_thorough.cfg"), workers=4)],
+    record=dict(quick=300, thorough=6000),
+    selftest=dict(quick=40, thorough=200),
+    trace=dict(module="trace/T_Time.tla", cfg="trace/T_Time.cfg"),
+    trace_chunk=1000,
+    rule="MC: {a,m,c} x {day,min} x ages around k*period (k<=KMAX) x N<=NMAX, three forms each; 8 XY pairs x 5 deltas. "
+         "Trace: random offsets at period boundaries for the four settable timestamps, now relative to the real clock or to an observed timestamp; "
+         "21 tests per run.",
+    exhaustive_note="bounded-exhaustive",
+    assumptions=["the file system keeps nanosecond timestamps (tmpfs)"],
+)
+
 _WALK_NOTE = ("Trusted: TLC; the harness's materialisation of tree values (mkdir/symlink) and the in-process call of find_main with captured "
               "output. Unreadable directories cannot be produced as root in-process and are exercised by C11's fixture only. Link targets are "
               "non-links or dangling (no link-to-link chains).")
